@@ -401,18 +401,40 @@ class CachedFcn(UserFcn):
     """
 
     @staticmethod
-    def _same(x, y):
-        if x is y:
-            return True
-        if type(x) is not type(y):
-            return False
+    def _snapshot(x):
+        # the cache compares later arguments with what this one held at the time of the call, not with an
+        # object that may have been refilled since (a reused record dict, the weights buffer the binning
+        # primitives overwrite for every bin)
+        if isinstance(x, np.ndarray):
+            return x.copy()
         if isinstance(x, dict):
+            return {k: CachedFcn._snapshot(v) for k, v in x.items()}
+        if isinstance(x, list):
+            return [CachedFcn._snapshot(v) for v in x]
+        if isinstance(x, tuple):
+            return tuple(CachedFcn._snapshot(v) for v in x)
+        return x
+
+    @staticmethod
+    def _same(x, y):
+        if isinstance(x, dict) and isinstance(y, dict):
             # a record {"x": 0.5} and a one-row batch {"x": array([0.5])} compare equal with ==
             return x.keys() == y.keys() and all(CachedFcn._same(x[k], y[k]) for k in x)
+        if type(x) is not type(y):
+            return False
+        if isinstance(x, np.ndarray) and x.dtype != object:
+            # bitwise: +0.0 and -0.0 are different arguments (copysign, 1/x, arctan2 tell them apart)
+            return x.dtype == y.dtype and x.shape == y.shape and x.tobytes() == y.tobytes()
+        if isinstance(x, (float, np.floating)):
+            return bool(x == y and np.signbit(x) == np.signbit(y))
+        if isinstance(x, (list, tuple)):
+            return len(x) == len(y) and all(CachedFcn._same(a, b) for a, b in zip(x, y))
+        if x is y:
+            return True
         try:
             return bool(np.array_equal(x, y))
         except Exception:
-            # e.g. dicts or records holding arrays: not comparable, so not a cache hit
+            # not comparable, so not a cache hit
             return False
 
     def __call__(self, *args, **kwds):
@@ -424,10 +446,13 @@ class CachedFcn(UserFcn):
             and all(self._same(kwds[k], self.lastKwds[k]) for k in kwds)
         ):
             return self.lastReturn
-        # evaluate first: if the function raises, the cache must not pair these arguments with the old value
+        # snapshot the arguments before the call (the function may itself modify them) ...
+        lastArgs = self._snapshot(args)
+        lastKwds = self._snapshot(kwds)
+        # ... and evaluate first: if the function raises, the cache must not pair these arguments with the old value
         ret = super().__call__(*args, **kwds)
-        self.lastArgs = args
-        self.lastKwds = kwds
+        self.lastArgs = lastArgs
+        self.lastKwds = lastKwds
         self.lastReturn = ret
         return ret
 
